@@ -17,7 +17,7 @@ import towerlib as T
 from common import ToolError, Verdict, build, log, seed, tlc, workdir, write_evidence
 
 PID = "C12"
-JOIN_MS = 14000     # reconnection probe interval of the Carrier (10 s) + slack
+JOIN_MS = 25000     # reconnection probe interval of the Carrier (10 s) + 15 s slack (a machine with every core busy needed more than 4 s once)
 
 
 def outage_model(wd, tier):
